@@ -98,6 +98,10 @@ func rawValue(g *Gen, ty Ty) V {
 	return g.Value(ty)
 }
 
+// infixPlainNames: pooled variable names that are plain identifiers in infix
+// notation too (no dot, no keyword, ASCII).
+var infixPlainNames = map[string]bool{"a": true, "b": true, "c": true, "d": true, "x1": true, "y_2": true, "is_ok": true, "v": true, "locale": true, "n0": true}
+
 func (propC11) Gen(r *Rng, tier string) *World {
 	k := DrawKnobs(r)
 	k.NVars = r.Range(2, 8)
@@ -488,6 +492,36 @@ func (propC11) Run(w *World, st *Stats) (vv *Violation) {
 				return viol(w, "missing-error", "step %d: %s: reference fails (%v), engine returned %s", si, prog.Src(), werr, ValStr(got))
 			case werr == nil && !ValEq(got, want):
 				return viol(w, "wrong-variable-value", "step %d: %s under keys {%s}: by-name reference value %s, engine %s", si, prog.Src(), keyMapStr(cc.VariableKeyMap), ValStr(want), ValStr(got))
+			}
+			if s.Op == "eval" {
+				// the smallest expression there is: one variable, written in infix
+				// notation (where it needs no parentheses)
+				var plain []string
+				for _, n := range sortedKeys(s.Plan.Bind) {
+					_, isConst := consts[n]
+					_, reg := cc.VariableKeyMap[n]
+					if infixPlainNames[n] && !isConst && (reg || cc.CompileOptions[eval.AllowUndefinedVariable]) {
+						plain = append(plain, n)
+					}
+				}
+				if len(plain) > 0 {
+					n := plain[si%len(plain)]
+					for _, src := range []string{n, "(" + n + ")"} {
+						ic := eval.CopyConfig(cc)
+						ic.CompileOptions[eval.InfixNotation] = true
+						ie, err := eval.Compile(ic, src)
+						st.Evals++
+						if err != nil {
+							return viol(w, "compile-error", "step %d: Compile rejected the infix expression %q: %v", si, src, err)
+						}
+						got, gerr := ie.Eval(eval.NewCtxFromVars(ic, vals))
+						st.Evals++
+						if gerr != nil || !ValEq(got, norm[n].Go()) {
+							return viol(w, "wrong-variable-value", "step %d: infix expression %q under keys {%s}: bound value normalises to %s, engine returned %s err=%v", si, src, keyMapStr(ic.VariableKeyMap), ValStr(norm[n].Go()), ValStr(got), gerr)
+						}
+					}
+					st.Probe("infix_bare_variable")
+				}
 			}
 			for _, c := range log {
 				if nv, ok := norm[c.Name]; ok && !ValEq(c.Res, nv.Go()) {
